@@ -602,3 +602,43 @@ def r04_14_weekday_adjustment(ctx: Ctx) -> RuleResult:
                 else:
                     rr.fail(f.qual, f"anchor on weekday {cur}, rule asks for weekday {want} {'on or after' if adv else 'on or before'}: the date is moved by {got} days, the definition gives {exp}", ctx.loc(f, block))
     return rr
+
+
+@rule("C04")
+def r04_15_alternating_map_crosswise_savings(ctx: Ctx) -> RuleResult:
+    """A standard / daylight pair of yearly rules: the NEXT start of daylight time is computed as seen from standard time (previous
+    savings zero) and the next start of standard time as seen from daylight time (previous savings = the daylight savings) -
+    crosswise.  Giving the daylight rule its own savings moves every spring-forward of a wall-time rule by that amount.  Which rule
+    is in force is a question of WHICH OBJECT `__next_transition` returned: it is compared by identity (or ==) with the stored
+    recurrences, never through one of their fields (two rules may share an abbreviation, as Lord Howe's do)."""
+    rr = RuleResult("R04.15", "standard/daylight alternating map: the daylight rule is asked with previous savings zero and the standard rule with the daylight savings; the current rule is identified by the recurrence object, not by a field", min_instances=3)
+    M = ctx.M
+    c = M.cls("_StandardDaylightAlternatingMap")
+    for f in sorted(c.all_defs, key=lambda g: g.qual):
+        if isinstance(f.node, ast.Lambda):
+            continue
+        for n in own_nodes(f.node):
+            if isinstance(n, ast.Call) and isinstance(n.func, ast.Attribute) and n.func.attr in ("_next_or_fail", "_previous_or_same_or_fail", "_next", "_previous_or_same") and len(n.args) >= 3:
+                recv = unparse(n.func.value)
+                third = unparse(n.args[2])
+                if recv.endswith("__dst_recurrence"):
+                    rr.inst()
+                    if third == "Offset.zero":
+                        rr.ok({"call": unparse(n)[:70]})
+                    else:
+                        rr.fail(f.qual, f"`{unparse(n)[:90]}`: the daylight rule starts from standard time, so its previous savings are Offset.zero, not `{third}`", ctx.loc(f, n))
+                elif recv.endswith("__standard_recurrence"):
+                    rr.inst()
+                    if third.endswith("__dst_recurrence.savings"):
+                        rr.ok({"call": unparse(n)[:70]})
+                    else:
+                        rr.fail(f.qual, f"`{unparse(n)[:90]}`: the standard rule starts from daylight time, so its previous savings are the daylight rule's savings, not `{third}`", ctx.loc(f, n))
+            if isinstance(n, ast.Compare) and len(n.ops) == 1 and any("recurrence" in unparse(x) for x in [n.left] + n.comparators):
+                sides = [n.left, n.comparators[0]]
+                if all(isinstance(x, ast.Attribute) and x.attr in ("name", "savings", "year_offset") and "recurrence" in unparse(x.value) for x in sides):
+                    rr.inst()
+                    rr.fail(f.qual, f"`{unparse(n)[:80]}` identifies the rule in force by a field; two rules can share it - compare the recurrence objects", ctx.loc(f, n))
+                elif all("recurrence" in unparse(x) and not (isinstance(x, ast.Attribute) and x.attr in ("name", "savings")) for x in sides):
+                    rr.inst()
+                    rr.ok({"comparison": unparse(n)[:70]})
+    return rr
